@@ -1381,6 +1381,64 @@ fn main() {
         }
     }
 
+    // ---- 3b. component <-> include recursion: the include graph is acyclic (a component call is
+    //      not an include edge), so these sets are accepted; the only bound is the component
+    //      recursion limit, which has to hold across includes: an unbounded loop must END in the
+    //      limit error, a bounded nesting beyond the limit must be that error, one below it must render
+    let comp_inc = |n: usize, looped: bool| -> (Case, String) {
+        // `lib` defines c_i whose body includes t_{i+1}; t_i calls c_i
+        let mut lib = TplS::new("lib");
+        let mut tpls = Vec::new();
+        for i in 0..n {
+            let mut t = TplS::new(&format!("t{i}"));
+            t.comp_calls.push(format!("c{i}"));
+            tpls.push(t);
+            let next = if i + 1 < n { Some(format!("t{}", i + 1)) } else if looped { Some("t0".to_string()) } else { None };
+            lib.comps.push(CompS { name: format!("c{i}"), includes: next.into_iter().collect() });
+        }
+        tpls.push(lib);
+        (Case { prefixes: vec![], tpls }, "t0".to_string())
+    };
+    let limit = 20usize;
+    for (label, n, looped, want_ok) in [("loop-1", 1usize, true, false), ("loop-3", 3, true, false), ("nest-10", 10, false, true), ("nest-20", limit, false, true), ("nest-21", limit + 1, false, false), ("nest-30", 30, false, false)] {
+        let (c, top) = comp_inc(n, looped);
+        let imp = safe_register(&c);
+        report.evaluations += 1;
+        report.oracle_checks += 1;
+        report.count(&format!("component-include.{label}"));
+        let (status, out) = render_in_child(&c, &top, &format!("compinc-{label}"), Duration::from_secs(30));
+        let out = out.trim().to_string();
+        let good = imp.starts_with("ok") && status == "exit0" && if want_ok { out.starts_with("ok ") } else { out.starts_with("rendererr err msg") };
+        if !good {
+            report.oracle_failures += 1;
+            report.violation(
+                "property",
+                format!(
+                    "component <-> include recursion ({label}: {n} component levels{}): registration `{}`; render of `{top}` in a child process: {status} `{}` — {}",
+                    if looped { ", looping back" } else { "" },
+                    err_class(&imp),
+                    out.chars().take(100).collect::<String>(),
+                    if want_ok { "nesting below the component recursion limit must render" } else { "must end in the component recursion limit error, whatever includes lie between the component calls" }
+                ),
+                replay_json(&c, &imp, serde_json::json!({"render": top, "child": status, "output": out.chars().take(200).collect::<String>()})),
+            );
+        }
+        // the model's skeleton carries the component depth through includes as the engine does
+        let req = format!("render {} {} {}", 8 * n + 200, top, set_wire(&c.prefixes, &c.tpls));
+        if let Ok(m) = driver::run_batch(&exe, &[req]) {
+            report.model_comparisons += 1;
+            let real = out.strip_prefix("rendererr ").unwrap_or(&out);
+            if status == "exit0" && m[0] != real {
+                report.model_disagreements += 1;
+                report.violation(
+                    "model-mismatch",
+                    format!("render skeleton of the model `{}` vs real render `{}` ({label})", m[0].chars().take(100).collect::<String>(), real.chars().take(100).collect::<String>()),
+                    replay_json(&c, &imp, serde_json::json!({"stage": "correspondence:render-skeleton", "render": top, "model": m[0]})),
+                );
+            }
+        }
+    }
+
     // ---- 4. the two known shapes, once each, in a child with a timeout
     for (id, c, top) in [("F5a", f5a(), "C"), ("F5b", f5b(), "A")] {
         let imp = safe_register(&c);
